@@ -54,6 +54,13 @@ def gen(chk):
                     if extra:
                         plan.append((lo, 1, 1))
                     out.append((name, cs, shipped_old, [d, r2], plan))
+                # the rotating root is not the last one of the chain: one or two more roots follow that leave the
+                # online keys as the rotating root set them (re-signed roots)
+                for more in (1, 2):
+                    hi = (rng.choice(BIG), rng.choice(BIG), 2, 2)
+                    lo = (1, 1, 2, 2)
+                    e = more + 1
+                    out.append((name, cs, shipped_old, [d, r2] + [r2] * more, [(hi, 0, 0), (lo, e, e)]))
     return out
 
 
